@@ -28,12 +28,22 @@ impl<'a> Tr<'a> {
     /// a method of the same impl header as the function being translated: its abstracted `R::ITEM` parameters are the
     /// caller's own parameters of the same names
     pub fn inherited_assoc(&self, f: &FnInfo, env: &Env) -> Option<Vec<String>> {
-        if f.assoc_params.is_empty() || !f.generic_names.is_empty() || f.self_ty.is_none() || f.self_ty != self.self_ty {
+        if f.assoc_params.is_empty() || f.self_ty.is_none() {
             return None;
         }
         let me = self.t.fns.iter().find(|g| g.coq == self.fn_coq)?;
-        if me.impl_args != f.impl_args {
-            return None;
+        if f.self_ty == self.self_ty && f.generic_names.is_empty() {
+            if me.impl_args != f.impl_args {
+                return None;
+            }
+        } else {
+            // a method of another impl: its abstracted items are parameters of the caller under the same keys (add_fn
+            // made sure of it, and that the caller has no generic parameter of such a name)
+            for (k, _) in f.assoc_params.iter() {
+                if !me.assoc_params.iter().any(|(k2, _)| k2 == k) {
+                    return None;
+                }
+            }
         }
         let mut out = vec![];
         for (k, t) in f.assoc_params.iter() {
@@ -50,6 +60,10 @@ impl<'a> Tr<'a> {
             return Err(unsupported(at, &format!("call of `{}` (`&mut` parameters / fuel) in a position where its effects cannot be sequenced", f.key)));
         }
         let inherited = self.inherited_assoc(f, env);
+        if self.turbofish_types.as_ref().map(|v| v.is_empty()).unwrap_or(false) {
+            // no turbofish was written
+            self.turbofish_types = None;
+        }
         if !f.assoc_params.is_empty() && self.turbofish_types.is_none() && inherited.is_none() {
             return Err(unsupported(at, &format!("call of `{}`, whose generic parameters' associated constants are abstracted as parameters", f.key)));
         }
@@ -427,7 +441,13 @@ impl<'a> Tr<'a> {
                 let fs = self.find_fns(Some(&n), &name);
                 // a value of an instantiated type parameter: only the methods of the parameter's trait bounds
                 let fs: Vec<FnInfo> = match self.inst_traits.get(&n) {
-                    Some(bounds) => fs.into_iter().filter(|f| f.trait_name.as_deref().map(|t| bounds.contains(t.split('<').next().unwrap())).unwrap_or(false)).collect(),
+                    // (the bounds' supertraits and blanket impls are not known here: any trait method, never an inherent one;
+                    //  a method of a bound itself wins)
+                    Some(bounds) => {
+                        let traits: Vec<FnInfo> = fs.into_iter().filter(|f| f.trait_name.is_some()).collect();
+                        let direct: Vec<FnInfo> = traits.iter().filter(|f| f.trait_name.as_deref().map(|t| bounds.contains(t.split('<').next().unwrap())).unwrap_or(false)).cloned().collect();
+                        if direct.is_empty() { traits } else { direct }
+                    }
                     None => fs,
                 };
                 let via_bound = self.inst_traits.contains_key(&n);
@@ -478,7 +498,7 @@ impl<'a> Tr<'a> {
                 }
                 Err(unsupported(at, &format!("method `{}::{}`: {} (add it to functions.txt before its caller)", n, name, if fs.is_empty() { "not a configured function" } else { "ambiguous" })))
             }
-            Ty::Param(g) if self.generic_tys.contains(&g) => {
+            Ty::Param(g) if self.generic_tys.contains(g.split("::").next().unwrap()) || env.get(&format!("{}::{}", g, name)).is_some() => {
                 // a method of a generic type parameter's bound: a function parameter of the translated definition
                 let key = format!("{}::{}", g, name);
                 match env.get(&key) {
